@@ -68,7 +68,9 @@ func (re *Regexp) UnmarshalYAML(unmarshal func(any) error) error {
 
 // MarshalYAML implements the yaml.Marshaler interface for Regexp.
 func (re Regexp) MarshalYAML() (any, error) {
-	if re.Original != "" {
+	// An empty expression is a valid (compiled) value too: it must not be
+	// printed as null, which UnmarshalYAML of MatchRegexps rejects.
+	if re.Original != "" || re.Regexp != nil {
 		return re.Original, nil
 	}
 	return nil, nil
